@@ -77,6 +77,11 @@ func (d *Ar) Next() (*ArEntry, error) {
 	line := make([]byte, 60)
 
 	count, err := d.in.ReadAt(line, d.offset)
+	if err == io.EOF && count == len(line) {
+		/* A ReaderAt may report EOF together with a complete read that
+		 * ends exactly at the end of the input. */
+		err = nil
+	}
 	if err != nil {
 		return nil, err
 	}
@@ -176,7 +181,7 @@ func parseArEntry(line []byte) (*ArEntry, error) {
 // like an `ar(1)` archive, and not some random file.
 func checkAr(reader io.ReaderAt) (int64, error) {
 	header := make([]byte, 8)
-	if _, err := reader.ReadAt(header, 0); err != nil {
+	if count, err := reader.ReadAt(header, 0); err != nil && !(err == io.EOF && count == len(header)) {
 		return 0, err
 	}
 	if string(header) != "!<arch>\n" {
